@@ -38,7 +38,7 @@ def exhaustive_strings(meta, tier):
 
 def run(v, tier, seed, replay=None):
     meta, _ = common.translate()
-    ok, failed, info = coqrun.prove(v, 'C09', ['Inst/ScanEq.v'])
+    ok, failed, info = coqrun.prove(v, 'C09', ['Inst/ScanEq.v', 'Inst/StreamRT.v', 'Inst/UnknownEq.v'])
     res = filerun.assembled_run(meta, seed, tier)
     cs = [c for c in res['a'] if c['expect'] is not None]
     ndis = 0
